@@ -97,6 +97,7 @@ class World:
         self.issued = {}  # (gid, rank) -> count
         self.results = [None] * n
         self.switches = 0
+        self.muted = [False] * n   # per rank: do not record into trace (harness-side collectives)
 
     # ------------------------------------------------------------ scheduling
     def _runnable(self, r):
@@ -210,7 +211,8 @@ class World:
         while len(slots) <= k:
             slots.append(_Slot())
         slot = slots[k]
-        self.trace[me].append(('issue', g.ranks) + desc)
+        if not self.muted[me]:
+            self.trace[me].append(('issue', g.ranks) + desc)
         if slot.joined:
             first = next(iter(slot.joined.values()))[0]
             if first != desc:
@@ -341,7 +343,8 @@ class World:
         if async_op:
             return SimWork(fut)
         me = _tls.rank
-        self.trace[me].append(('wait-sync',))
+        if not self.muted[me]:
+            self.trace[me].append(('wait-sync',))
         self.yield_point(lambda: fut.done())
         return None
 
@@ -428,7 +431,8 @@ def _patched_wait(self):
     w = _w()
     if w is not None:
         me = _tls.rank
-        w.trace[me].append(('wait',))
+        if not w.muted[me]:
+            w.trace[me].append(('wait',))
         if not self.done():
             w.yield_point(lambda: self.done())
     return _ORIG['future_wait'](self)
